@@ -62,7 +62,13 @@ def cases(draw, depth):
     if draw(st.integers(0, 2)) == 0:
         mb = draw(st.sampled_from(MB))
         brk = draw(st.sampled_from(("\n", "\r\n", "\r", "\n\r")))
-        text = text.replace("'x'", f"'{mb}'").replace('"Col"', f'"C{mb}l"').replace("'abc'", f"'a{mb}{brk}c'").replace("'a b'", f"'a{brk}b'")
+        # literals / quoted identifiers spanning 1-5 lines (segments of different lengths, so "column after the FIRST break"
+        # and "column after the LAST break" differ), possibly with mixed break styles
+        def multi(first):
+            segs = [first] + [draw(st.sampled_from(("", "b", "cc", mb, "dddd " + mb))) for _ in range(draw(st.integers(1, 4)))]
+            return "".join(seg + (draw(st.sampled_from((brk, brk, "\n"))) if i < len(segs) - 1 else "") for i, seg in enumerate(segs))
+
+        text = text.replace("'x'", f"'{mb}'").replace('"Col"', f'"C{mb}l"' if draw(st.booleans()) else f'"{multi("C")}"').replace("'abc'", f"'{multi('a' + mb)}'").replace("'a b'", f"'{multi('a')}'")
     mutation = draw(st.sampled_from((None, None, None, "truncate", "drop", "dup", "swap")))
     pos = draw(st.integers(0, 1000))
     return {"sql": text, "mutation": mutation, "pos": pos, "dialects": draw(st.lists(st.sampled_from(sqlcore.dialect_names()), min_size=4, max_size=4, unique=True))}
